@@ -224,12 +224,17 @@ func OracleC11(tr *Trace) Verdict {
 					// OnDemote itself, at the end of its own work
 					by := end.T
 					for _, st := range ci.stops[obj] {
+						if st.CallT <= end.T && st.Call == "StopWithContext" && st.RetSeq >= 0 && st.RetT >= c.ToT && st.Err != "" && st.Err != "already stopped" {
+							// ... and a StopWithContext that gives up (time-out, context) clears the claim without
+							// OnDemote: the statement speaks of a successful StopWithContext only
+							return 1 << 62
+						}
 						if st.CallT <= end.T && st.RetSeq >= 0 && st.RetT >= c.ToT && st.RetT+p.Instances[inst].DemoteDur+time.Millisecond > by {
 							by = st.RetT + p.Instances[inst].DemoteDur + time.Millisecond
 						}
 					}
 					return by
-				}(); !demoteBy(obj, c.FromSeq, by) {
+				}(); by < 1<<62 && !demoteBy(obj, c.FromSeq, by) {
 					v.Viols = append(v.Viols, Viol{At: end.T, Sig: "C11 reconnect-verification-failure-without-ondemote",
 						Msg: fmt.Sprintf("%s: leadership ended at %v after a failed reconnect verification but OnDemote was not invoked by %v", who, c.ToT, end.T)})
 				}
